@@ -283,6 +283,11 @@ func genC11(t *rapid.T) c11Case {
 	var c c11Case
 	for i := 0; i < nl; i++ {
 		var buf bytes.Buffer
+		if chance(t, "utf8-bom", 6) {
+			buf.WriteString("\xef\xbb\xbf") // the mark is content like any other byte
+			buf.WriteString(pick(t, "bom-first-line", []string{"||bom8.example^", "example.org", "0.0.0.0 a.com", "! comment", "##.x"}))
+			buf.WriteString("\n")
+		}
 		k := rapid.IntRange(0, 25).Draw(t, "nlines")
 		eol := pick(t, "eol", []string{"\n", "\r\n", "mixed"})
 		for j := 0; j < k; j++ {
